@@ -7,7 +7,7 @@ variable {μ ρ : Type}
 /-- `c'` is reachable from `c` by opening `k` further streams of the script, each time re-sending
 the stored request, and `out` are the messages handed to the caller on the way -/
 structure Adv (c c' : Cli μ ρ) (k : Nat) (out : List μ) : Prop where
-  reqs : c'.reqs = c.reqs ++ List.replicate k c.sent
+  reqs : c'.reqs = c.reqs ++ List.replicate (srv c.rest k) c.sent
   sent : c'.sent = c.sent
   rest : c'.rest = c.rest.drop k
   msgs : out ++ c'.cur = c.cur ++ (c.rest.take k).flatMap (·.msgs)
@@ -17,6 +17,25 @@ structure Adv (c c' : Cli μ ρ) (k : Nat) (out : List μ) : Prop where
 /-- no request can reach the server after the caller cancelled: the transport does not let a stream
 opened under a cancelled context through, or the cancellation is reported as (a wrap of)
 `context.Canceled` so that the interceptor does not even try -/
+theorem srv_zero (rest : List (Stream μ)) : srv rest 0 = 0 := by cases rest <;> rfl
+
+theorem srv_add (rest : List (Stream μ)) (k k' : Nat) : srv rest (k + k') = srv rest k + srv (rest.drop k) k' := by
+  induction k generalizing rest with
+  | zero => simp [srv_zero]
+  | succ k ih =>
+    have e : k + 1 + k' = (k + k') + 1 := by omega
+    cases rest with
+    | nil => rw [e]; simp only [srv, List.drop_nil]; have := ih ([] : List (Stream μ)); simp only [List.drop_nil] at this; omega
+    | cons s r => rw [e]; simp only [srv, List.drop_succ_cons, ih r]; omega
+
+theorem srv_le (rest : List (Stream μ)) (k : Nat) : srv rest k ≤ k := by
+  induction k generalizing rest with
+  | zero => simp [srv_zero]
+  | succ k ih =>
+    cases rest with
+    | nil => simp only [srv]; have := ih ([] : List (Stream μ)); omega
+    | cons s r => simp only [srv]; have := ih r; split <;> omega
+
 def Quiet (c : Cli μ ρ) : Prop := c.reach = false ∨ c.cancelIs = true
 
 theorem Quiet.of_adv {c c' : Cli μ ρ} {k : Nat} {o : List μ} (hq : Quiet c) (h : Adv c c' k o) : Quiet c' := by
@@ -26,12 +45,16 @@ theorem Quiet.of_adv {c c' : Cli μ ρ} {k : Nat} {o : List μ} (hq : Quiet c) (
 def cancelErr (watch : Bool) (c : Cli μ ρ) : ErrClass :=
   if watch then .ctxCanceled else if c.cancelIs then .ctxCanceled else .rpcCanceled
 
-theorem Adv.refl (c : Cli μ ρ) : Adv c c 0 [] := ⟨by simp, rfl, by simp, by simp, rfl, rfl⟩
+theorem reqs_step (s : Stream μ) (r : List (Stream μ)) (reqs : List ρ) (sent : ρ) :
+    (if s.reaches = true then reqs ++ [sent] else reqs) = reqs ++ List.replicate (srv (s :: r) 1) sent := by
+  cases h : s.reaches <;> simp [srv, srv_zero, h]
+
+theorem Adv.refl (c : Cli μ ρ) : Adv c c 0 [] := ⟨by simp [srv_zero], rfl, by simp, by simp, rfl, rfl⟩
 
 theorem Adv.trans {c c' c'' : Cli μ ρ} {k k' : Nat} {o o' : List μ}
     (h : Adv c c' k o) (h' : Adv c' c'' k' o') : Adv c c'' (k + k') (o ++ o') := by
   refine ⟨?_, ?_, ?_, ?_, by rw [h'.reach, h.reach], by rw [h'.cancelIs, h.cancelIs]⟩
-  · rw [h'.reqs, h.reqs, h.sent, List.append_assoc, List.replicate_append_replicate]
+  · rw [h'.reqs, h.reqs, h.sent, h.rest, List.append_assoc, List.replicate_append_replicate, srv_add]
   · rw [h'.sent, h.sent]
   · rw [h'.rest, h.rest, List.drop_drop]
   · rw [List.append_assoc, h'.msgs, h.rest, ← List.append_assoc, h.msgs, List.append_assoc, List.take_add,
@@ -65,16 +88,16 @@ theorem attempt_adv (fuel : Nat) (last : ErrClass) (c : Cli μ ρ) (hc : c.cur =
     | nil =>
       simp only [attempt]
       exact AttemptGood.step (c1 := { cur := [], curEnd := .err, rest := [], sent := sent, reqs := reqs ++ [sent], reach := reach, cancelIs := cancelIs })
-        ⟨by simp, rfl, by simp, by simp, rfl, rfl⟩ (ih _ _ rfl)
+        ⟨by simp [srv, srv_zero], rfl, by simp, by simp, rfl, rfl⟩ (ih _ _ rfl)
     | cons s r =>
       simp only [attempt]
       cases hm : s.msgs with
       | cons m ms =>
-        exact ⟨1, Nat.le_refl _, by omega, ⟨by simp, rfl, by simp, by simp [hm], rfl, rfl⟩⟩
+        exact ⟨1, Nat.le_refl _, by omega, ⟨reqs_step s r reqs sent, rfl, by simp, by simp [hm], rfl, rfl⟩⟩
       | nil =>
         have step : Adv { cur := [], curEnd := curEnd, rest := s :: r, sent := sent, reqs := reqs, reach := reach, cancelIs := cancelIs }
-            { cur := ([] : List μ).tail, curEnd := s.fin, rest := r, sent := sent, reqs := reqs ++ [sent], reach := reach, cancelIs := cancelIs } 1 [] :=
-          ⟨by simp, rfl, by simp, by simp [hm], rfl, rfl⟩
+            { cur := ([] : List μ).tail, curEnd := s.fin, rest := r, sent := sent, reqs := if s.reaches = true then reqs ++ [sent] else reqs, reach := reach, cancelIs := cancelIs } 1 [] :=
+          ⟨reqs_step s r reqs sent, rfl, by simp, by simp [hm], rfl, rfl⟩
         by_cases hh : s.fin = .hang
         · simp only [hh, if_true]
           exact ⟨1, by omega, by simpa [hh] using step, rfl, fun h => absurd rfl h⟩
@@ -103,7 +126,7 @@ theorem recvMsg_adv (watch : Bool) (max : Nat) (cancelled : Bool) (c : Cli μ ρ
     simp only [Bool.false_eq_true, if_false]
     cases hcur : c.cur with
     | cons m ms =>
-      exact ⟨0, by omega, fun _ => rfl, rfl, ⟨by simp, rfl, by simp, by simp [hcur], rfl, rfl⟩⟩
+      exact ⟨0, by omega, fun _ => rfl, rfl, ⟨by simp [srv_zero], rfl, by simp, by simp [hcur], rfl, rfl⟩⟩
     | nil =>
       by_cases hh : c.curEnd = .hang
       · simp only [hh, if_true]
